@@ -74,8 +74,8 @@ func rename(t *rapid.T, p *pat.Pattern) string {
 func gen(t *rapid.T) Case {
 	cfg := pat.GenCfg(t, true)
 	c := Case{Icpt: cfg.IcptName, Trace: rapid.IntRange(0, 3).Draw(t, "trace") == 0}
-	c.Pool = pat.GenPool(t, cfg, rapid.IntRange(2, 10).Draw(t, "npool"))
-	nops := rapid.IntRange(1, 12).Draw(t, "nops")
+	c.Pool = pat.GenPool(t, cfg, rapid.IntRange(2, rig.Up(10)).Draw(t, "npool"))
+	nops := rapid.IntRange(1, rig.Up(12)).Draw(t, "nops")
 	if rapid.IntRange(0, 5).Draw(t, "single") == 0 {
 		nops = 1 // tables with exactly one route make the name-equivalence clause decidable
 	}
